@@ -567,6 +567,10 @@ def split_complex(z):
 def term_attr(it, base, attr, env, node):
     from .interp import TermMethod
 
+    # os.stat(p).st_atime / .st_mtime are os.path.getatime(p) / getmtime(p)
+    if attr in ("st_atime", "st_mtime") and fname(base) in ("ext_os_stat",) and base.args:
+        return op("ext_os_path_get" + attr[3:], base.args[0])
+
     if attr in IDENTITY_ATTRS:
         return base
     if attr in ("real", "imag") and isinstance(base, sp.Basic):
